@@ -22,7 +22,7 @@ LEVEL = 'exploration'
 EXHAUSTIVE = True
 RULE = ('session = banner, EHLO/LHLO, MAIL, RCPT x n (n=1..3), DATA, content|empty content, RSET, custom NOOP, QUIT (plus two '
         'other shapes with n<=2: two transactions back to back without RSET; a second EHLO/LHLO, accepted or refused, between the last '
-        'RCPT and DATA); '
+        'RCPT and DATA; an AUTH LOGIN exchange with standard or empty challenges, accepted or refused, before the transaction); '
         'reply script = one class from {2xx,4xx,5xx} (RCPT also 3xx; DATA: {354,4xx,5xx}) per command -- all assignments consistent with a '
         'server (DATA refused when no recipient accepted; LMTP: one end-of-data reply per accepted recipient, each '
         'with its own class), quick: at most 2 non-success classes, thorough: all -- x line counts cycling 1..3 x '
@@ -83,7 +83,16 @@ def build_script(cfg):
     add('banner', '220')
     exts = ['mx', '8BITMIME'] + (['PIPELINING'] if cfg['pipelining'] else [])
     hello_wire = b''.join(b'250' + (b' ' if i == len(exts) - 1 else b'-') + e.encode() + b'\r\n' for i, e in enumerate(exts))
+    if cfg.get('prog') == 'auth':
+        exts = exts + ['AUTH LOGIN PLAIN']
+        hello_wire = b''.join(b'250' + (b' ' if i == len(exts) - 1 else b'-') + e.encode() + b'\r\n' for i, e in enumerate(exts))
     add('ehlo', '250', (hello_wire, 'mx'))
+    if cfg.get('prog') == 'auth':
+        # AUTH LOGIN: two challenges (the standard prompts, or empty ones -- a challenge may be empty), then the verdict
+        for j, prompt in enumerate((b'VXNlcm5hbWU6', b'UGFzc3dvcmQ6')):
+            text = b'' if cfg['chal'] == 'empty' else prompt
+            seq.append(('auth-chal%d' % j, '334', text.decode(), b'334 ' + text + b'\r\n'))
+        add('auth', '235' if cfg['hello2'] == '2' else '535')
     for t, cls in enumerate(transactions_of(cfg)):
         pre = '' if t == 0 else 't%d-' % (t + 1)
         mail_c, rcpt_c, data_c, end_c = _split_classes(cls, n)
@@ -103,7 +112,7 @@ def build_script(cfg):
                     add(pre + 'enddata%d' % i, CODE[end_c[j]])
             else:
                 add(pre + 'enddata', CODE[end_c[0]])
-    if cfg.get('prog', 'std') == 'std':
+    if cfg.get('prog', 'std') in ('std', 'auth'):
         add('rset', '250')
         add('noop', '250')
     add('quit', '221')
@@ -143,6 +152,8 @@ def session(cfg, sock):
     try:
         holders.append(('banner', c.get_banner()))
         holders.append(('ehlo', c.lhlo('me') if cfg['lmtp'] else c.ehlo('me')))
+        if cfg.get('prog') == 'auth':
+            holders.append(('auth', c.auth('user', 'pw', mechanism=b'LOGIN')))
         for t in range(len(transactions_of(cfg))):
             pre = '' if t == 0 else 't%d-' % (t + 1)
             holders.append((pre + 'mail', c.mailfrom('s%d@x' % t)))
@@ -162,7 +173,7 @@ def session(cfg, sock):
                         holders.append((pre + 'enddata%d' % int(rcpt[1]), r))
                 else:
                     holders.append((pre + 'enddata', sd))
-        if cfg.get('prog', 'std') == 'std':
+        if cfg.get('prog', 'std') in ('std', 'auth'):
             holders.append(('rset', c.rset()))
             holders.append(('noop', c.custom_command(b'NOOP')))
         holders.append(('quit', c.quit()))
@@ -181,6 +192,8 @@ def session(cfg, sock):
 def expected_of(script):
     exp = []
     for name, code, text, w in script:
+        if name.startswith('auth-chal'):
+            continue            # consumed inside the AUTH exchange, never handed out
         t = text
         if not name.startswith('ehlo') and name != 'banner' and code[0] in '245':
             t = '%s.0.0 %s' % (code[0], text)
@@ -292,6 +305,17 @@ def extra_scripts(tier):
                                'classes': c1, 'lshift': d1 % 3}
 
 
+def auth_scripts(tier):
+    for lmtp in (False, True):
+        for pipelining in (True, False):
+            for chal in ('std', 'empty'):
+                for verdict in '25':
+                    for cls in ('2232' if not lmtp else '2232', '252', '2252'):
+                        n = len(cls) - 3 if cls[-2] == '3' else len(cls) - 2
+                        yield {'lmtp': lmtp, 'pipelining': pipelining, 'n': n, 'empty': False, 'prog': 'auth', 'chal': chal, 'hello2': verdict,
+                               'classes': cls, 'lshift': 0}
+
+
 def run_script(cfg, tier, res):
     script = build_script(cfg)
     body, make_sock, stream = make_body(cfg, script)
@@ -332,7 +356,7 @@ def configs(tier, seed):
 
 def run_config(cfg, tier, seed):
     res = Result()
-    for i, sc in enumerate(itertools.chain(scripts(tier), extra_scripts(tier))):
+    for i, sc in enumerate(itertools.chain(scripts(tier), extra_scripts(tier), auth_scripts(tier))):
         if i % cfg['of'] != cfg['k']:
             continue
         script, outs = run_script(sc, tier, res)
